@@ -9,11 +9,17 @@ From Coq Require Import List NArith ZArith QArith Qabs PrimFloat.
 From D3 Require Import Base.Ops Base.Vec Model.Simplex.
 Import ListNotations.
 
+(** integer fast path: no gcd when both operands are integers (the common case on lattices) *)
+Definition qop (fz : Z -> Z -> Z) (fq : Q -> Q -> Q) (a b : Q) : Q :=
+  match Qden a, Qden b with
+  | 1%positive, 1%positive => fz (Qnum a) (Qnum b) # 1
+  | _, _ => Qred (fq a b)
+  end.
 Definition QOpsSF : Ops Q := {|
   zero := 0%Q; one := 1%Q;
-  add := fun a b => Qred (a + b); sub := fun a b => Qred (a - b);
-  mul := fun a b => Qred (a * b); div := fun a b => Qred (a / b);
-  opp := Qopp; sqrt := fun x => x (* never called by the simplex solver *); abs := Qabs;
+  add := qop Z.add Qplus; sub := qop Z.sub Qminus;
+  mul := qop Z.mul Qmult; div := fun a b => Qred (a / b);
+  opp := Qopp; sqrt := fun x => x (* never called by the simplex solvers' results *); abs := Qabs;
   leb := Qle_bool; ltb := fun a b => negb (Qle_bool b a); eqb := Qeq_bool;
   cst := Qred |}.
 
@@ -33,6 +39,35 @@ Definition jolt_q (prev : Q) (Y : list (V3 Q)) : option (V3 Q * N) :=
   | GcpOk v l s => Some (v, s)
   | _ => None
   end.
+
+(** the same with the value of MAX_FLOAT supplied by the caller (Proofs/SimplexLattice*.v evaluate
+    that 1024-bit rational once instead of once per tetrahedron); [jolt_q_with_eq]:
+    [jolt_q_with MAX_FLOAT = jolt_q] *)
+Definition jolt_q_with (max_float prev : Q) (Y : list (V3 Q)) : option (V3 Q * N) :=
+  let O := QOpsSF in
+  let r : option (V3 Q * N) :=
+    match Y with
+    | [y0] => Some (y0, 1%N)
+    | [y0; y1] => Some (closest_point_line y0 y1)
+    | [y0; y1; y2] => Some (closest_point_triangle y0 y1 y2)
+    | [y0; y1; y2; y3] => Some (fst (closest_point_tetrahedron_t_with max_float y0 y1 y2 y3))
+    | _ => None
+    end in
+  match r with
+  | Some (v, s) => if ltb (dot v v) prev then Some (v, s) else None
+  | None => None
+  end.
+
+Lemma jolt_q_with_eq prev Y : jolt_q_with (@MAX_FLOAT Q QOpsSF) prev Y = jolt_q prev Y.
+Proof.
+  unfold jolt_q_with, jolt_q, get_closest_point_to_origin.
+  destruct Y as [|y0 [|y1 [|y2 [|y3 [|y4 Y]]]]]; cbn [length]; try reflexivity.
+  - destruct (ltb _ _); reflexivity.
+  - destruct (closest_point_line y0 y1) as [v s]. destruct (ltb _ _); reflexivity.
+  - destruct (closest_point_triangle y0 y1 y2) as [v s]. destruct (ltb _ _); reflexivity.
+  - unfold closest_point_tetrahedron, closest_point_tetrahedron_t.
+    destruct (fst (closest_point_tetrahedron_t_with MAX_FLOAT y0 y1 y2 y3)) as [v s]. destruct (ltb _ _); reflexivity.
+Qed.
 
 (** indices selected by a bit set, ascending (the rows [update_simplex_y] keeps) *)
 Fixpoint bits_from (i : nat) (n : nat) (s : N) : list nat :=
